@@ -221,31 +221,31 @@ def rule_e(ctx):
             'SETUP is built at %d sites: %s' % (len(sites), [s[0].short for s in sites]))
     if not sites:
         raise AnalysisError('C08.e: no construction site of SetupFrame')
-    # who may call the builder chain: builder <- _create_setup_frame <- connect only
-    chain = [sites[0][0]]
-    callers_ok = True
-    detail = []
-    frontier = [sites[0][0]]
-    seen = set()
-    connect_reached = False
-    while frontier:
-        g = frontier.pop()
-        if g in seen:
-            continue
-        seen.add(g)
-        callers = _callers_of(ctx, g)
-        for cf, cn in callers:
-            detail.append('%s <- %s' % (g.short, cf.short))
-            if cf.name == 'connect':
-                connect_reached = True
-                continue
-            frontier.append(cf)
-        if len(seen) > 6:
-            callers_ok = False
-    bad_callers = [d for d in detail if not (d.endswith('connect') or '_create_setup_frame' in d or
-                                             'to_setup_frame' in d)]
-    rep.add('C08.e', 'SetupFrame / built only on connect', sites[0][0], connect_reached and callers_ok,
-            'call chain: %s' % '; '.join(detail))
+    # who may reach the construction site: walking the call graph upwards, every chain must hit connect()
+    reach = {sites[0][0]}
+    edges = []
+    bad_roots = []
+    hit_connect = False
+    work = [sites[0][0]]
+    while work:
+        g = work.pop()
+        if g.name == 'connect':
+            hit_connect = True
+            continue  # whatever calls connect() is outside the scope of this rule
+        callers = [c for c, _ in _callers_of(ctx, g) if c is not g]
+        if not callers:
+            bad_roots.append(g)
+        for cf in callers:
+            edges.append('%s <- %s' % (g.short, cf.short))
+            if cf not in reach and len(reach) < 60:
+                reach.add(cf)
+                work.append(cf)
+    ok = hit_connect and not bad_roots
+    rep.add('C08.e', 'SetupFrame / built only on connect', sites[0][0], ok,
+            'every call chain that reaches the SETUP construction site passes through connect(): %s' % '; '.join(
+                sorted(set(edges))) if ok else
+            'SETUP can also be built through %s without passing connect() (chain: %s)' % (
+                [f.short for f in bad_roots], '; '.join(sorted(set(edges)))))
     # the head insertion is used for SETUP only
     spf = ctx.repo.func('rsocket.rsocket_base:RSocketBase.send_priority_frame')
     callers = _callers_of(ctx, spf)
@@ -273,25 +273,8 @@ def rule_e(ctx):
 
 
 def _callers_of(ctx, g):
-    out = []
-    for f in ctx.repo.all_functions():
-        if not f.module.name.startswith('rsocket') or f.module.name.startswith('rsocket.cli'):
-            continue
-        for n in walk_local(f.node):
-            if isinstance(n, ast.Call):
-                fn = n.func
-                name = fn.attr if isinstance(fn, ast.Attribute) else (fn.id if isinstance(fn, ast.Name) else None)
-                if name != g.name:
-                    continue
-                if isinstance(fn, ast.Name):
-                    r = ctx.repo.resolve_name(f.module, fn.id)
-                    if isinstance(r, list) and g in r:
-                        out.append((f, n))
-                else:
-                    # method call: resolve by name over the hierarchy of g's class
-                    if g.cls is not None:
-                        out.append((f, n))
-    return out
+    from ..callgraph import callgraph
+    return callgraph(ctx).callers(g)
 
 
 def rule_f(ctx):
